@@ -503,6 +503,9 @@ std::pair<void*,size_t> splinetable<Alloc>::write_fits_mem() const{
 			throw std::runtime_error("CFITSIO failed to complete and close the memory 'file'");
 		}
 	}catch(std::exception& ex){
+		//the caller never sees the buffer (cfitsio may have moved it: buf is
+		//kept up to date through the pointer it was given)
+		free(buf);
 		throw std::runtime_error("Failed to write FITS memory 'file': \n"+std::string(ex.what()));
 	}
 	
